@@ -100,3 +100,22 @@ Definition chk_draws (c : list nat * list (nat * bool)) : bool :=
 (* ImportanceFlowProposal.draw_from_flows: (the one batch of candidates, ids returned) *)
 Definition chk_fromflows (c : list cand * list nat) : bool :=
   let '(cs, ids) := c in nl_eqb (map cid (ins_from_flows cs)) ids.
+
+(* AugmentedFlowProposal._marginalise_augment: (n_marg, the recomputed terms in the order of the repeated rows, ln n_marg,
+   tolerance, the values the real method returned).  logsumexp is an oracle; what is checked in exact arithmetic is the
+   enclosure  max(block_i) <= out_i + ln n_marg <= max(block_i) + ln n_marg  of every returned value by ITS OWN block of
+   terms (model [blocks]), up to the tolerance the harness states (2^-20 relative). *)
+Definition ext_neg (a : ext) : ext := match a with Fin m e => Fin (- m) e | NInf => PInf | PInf => NInf | NaN => NaN end.
+Definition ext_add (a b : ext) : ext := fsub ieee_sub a (ext_neg b).
+Definition ext_maxl (l : list ext) : ext := match l with [] => NaN | x :: r => fold_left (max2) r x end.
+Fixpoint marg_ok (ln_n tol : ext) (groups : list (list ext)) (outs : list ext) : bool :=
+  match groups, outs with
+  | [], [] => true
+  | g :: gs, o :: os =>
+      let m := ext_maxl g in
+      let v := ext_add o ln_n in
+      ge (ext_add v tol) m && ge (ext_add (ext_add m ln_n) tol) v && marg_ok ln_n tol gs os
+  | _, _ => false
+  end.
+Definition chk_marg (c : nat * list ext * ext * ext * list ext) : bool :=
+  let '(n, terms, ln_n, tol, outs) := c in marg_ok ln_n tol (blocks n terms) outs.
